@@ -1,7 +1,9 @@
 //! Clarabel backend provided by `good_lp`.
 
 use super::good_lp::{collect_good_lp_duals, solve_with_good_lp};
+use super::common::variable_free_verdict;
 use super::{LpSolution, SolverError, find_invalid_variables};
+use indexmap::IndexMap;
 use crate::math::{OptimizationType, VariableType};
 use crate::transformers::LinearModel;
 use ::clarabel::solver::SolverStatus;
@@ -36,6 +38,15 @@ use ::good_lp::SolutionWithDual;
 /// let solution = solve_real_lp_problem_clarabel(&model).unwrap();
 /// ```
 pub fn solve_real_lp_problem_clarabel(lp: &LinearModel) -> Result<LpSolution<f64>, SolverError> {
+    // the back end cannot be given a problem without columns (it panics)
+    if let Some(verdict) = variable_free_verdict(lp) {
+        verdict?;
+        return Ok(LpSolution::new(
+            vec![],
+            lp.objective_offset(),
+            IndexMap::new(),
+        ));
+    }
     match solve_with_clarabel(lp) {
         // A dual-infeasible status only proves an improving ray. The model is
         // unbounded only if it also has a feasible point, which a second solve
